@@ -6,5 +6,11 @@ cd "$(dirname "$0")"
 if ! /venv/bin/python -c "import hypothesis" 2>/dev/null; then
   PIP_NO_INDEX=1 /venv/bin/pip install --no-index --find-links /opt/veriftools/wheels hypothesis
 fi
+# atheris (coverage-guided arm of the thorough tier) goes next to the checks, not into /venv; if the wheel is missing the
+# fuzz shards report themselves as unavailable and the random shards still decide the property
+if ! PYTHONPATH="$PWD/.deps" /venv/bin/python -c "import atheris" 2>/dev/null; then
+  mkdir -p .deps
+  PIP_NO_INDEX=1 /venv/bin/pip install -q --no-index --find-links /opt/veriftools/wheels --target .deps atheris || echo "atheris not installed: coverage-guided shards will be skipped"
+fi
 /venv/bin/python -c "import hypothesis, numpy, pandas, networkx, scipy; print('hypothesis', hypothesis.__version__)"
 mkdir -p evidence replays
